@@ -530,6 +530,28 @@ class Extractor:
                 continue
             i += 1
 
+    def format_edits(self, sf, elems, edits, q):
+        """R16: `format!("PREFIX{ident}")` (one literal, a text prefix followed by ONE inline argument, nothing else) -> `fmt_key("PREFIX", ident)`.
+        Verus has no `format!`; the stand-in `fmt_key` carries the assumed meaning of the macro for this shape: the prefix followed by the decimal
+        rendering of the (unsigned integer) argument.  Any other `format!` shape is left alone (the verifier front end then rejects the unit: exit 2)."""
+        def rec(el):
+            i = 0
+            while i < len(el):
+                e = el[i]
+                if is_tok(e, 'format', kind='ident') and i + 2 < len(el) and is_tok(el[i + 1], '!') and is_group(el[i + 2], '('):
+                    inner = [c for c in el[i + 2].children]
+                    if len(inner) == 1 and is_tok(inner[0], kind='string'):
+                        m = re.fullmatch(r'"([A-Za-z0-9_ .:-]*)\{([A-Za-z_][A-Za-z0-9_]*)\}"', inner[0].text)
+                        if m:
+                            edits.append((e.start, el[i + 2].end, 'fmt_key("%s", %s)' % (m.group(1), m.group(2)), {'kind': 'rule', 'rule': 'R16'}))
+                            self.rule('R16', sf.rel, sf.line_of(e.start), 'format!(%s) in %s -> fmt_key("%s", %s)' % (inner[0].text, q, m.group(1), m.group(2)))
+                            i += 3
+                            continue
+                if isinstance(e, Group):
+                    rec(e.children)
+                i += 1
+        rec(elems)
+
     def render(self, sf, start, end, edits):
         """Apply edits (start, end, text, origin) to src[start:end]; return segments."""
         src = sf.src
@@ -756,6 +778,7 @@ class Extractor:
             edits.append((it.vis[0], it.vis[1], '', None))
         sig_elems = [e for e in it.elems if e is not it.body]
         self.path_edits(sf, it.elems, edits)
+        self.format_edits(sf, it.elems, edits, q)
         # Self::Error of a former trait impl
         assoc = getattr(self, 'assoc', {})
         toks = flat_tokens(it.elems)
